@@ -29,6 +29,15 @@ Theorem C20_neg_elementwise : forall a : V6 R,
 Proof. intros; repeat split; gen_ring. Qed.
 Print Assumptions C20_neg_elementwise.
 
+(* the in-place forms x += y and x -= y are the element-wise sum / difference too (since /repo 5371e50) *)
+Theorem C20_inplace_elementwise : forall a b : V6 R,
+  tr_iadd_Vel Rops a b = vadd6 Rops a b /\ tr_iadd_Acc Rops a b = vadd6 Rops a b /\
+  tr_iadd_Frc Rops a b = vadd6 Rops a b /\ tr_iadd_Mom Rops a b = vadd6 Rops a b /\
+  tr_isub_Vel Rops a b = vsub6 Rops a b /\ tr_isub_Acc Rops a b = vsub6 Rops a b /\
+  tr_isub_Frc Rops a b = vsub6 Rops a b /\ tr_isub_Mom Rops a b = vsub6 Rops a b.
+Proof. intros; repeat split; gen_ring. Qed.
+Print Assumptions C20_inplace_elementwise.
+
 (* ---------------------------------------------------------------- cross products *)
 (* v x m  =  [skew(w) skew(v); 0 skew(w)] m      (crm_ref is exactly that block matrix, see the Example) *)
 Theorem C20_crm_is_matrix : forall v m : V6 R, tr_crm Rops v m = mv66 Rops (crm_ref Rops v) m.
